@@ -26,9 +26,11 @@ Definition prepare_chan (s : seq) (e : elem) (maxdelay : Q) (p : chan * Q) : res
           do b' <- delay_bp b delay maxdelay;
           if bp_has_empty_list b' then Err EValue else Ok (c, mkCh (KBp (bp_copy b')) (cflags ch))
       | KArr arrs asr =>
-          match seq_SR s with
-          | VNum sr => Ok (c, mkCh (KArr (delay_arrays arrs delay maxdelay sr) asr) (cflags ch))
-          | _ => Err EType
+          (* padded at the rate the arrays were recorded at (element._data[chan]["SR"]), as _applyDelays does *)
+          match asr with
+          | Some (VNum sr) => Ok (c, mkCh (KArr (delay_arrays arrs delay maxdelay sr) asr) (cflags ch))
+          | Some _ => Err EType
+          | None => Err EKey
           end
       end
   end.
